@@ -286,6 +286,7 @@ def c13(ctx, v):
     I.r_esi(ctx, v, only_types=lambda T_: not T_.endswith("IterMut"), key_floor=4)
     I.r_wiring_all(ctx, v)
     M.r_side(ctx, v)  # the sorted iterators consume by the queue's own pop family only
+    I.r_cursor(ctx, v)  # the IterMuts are iterators too: each element once, exact counts where declared
 
 
 def c14(ctx, v):
@@ -336,6 +337,9 @@ def c18(ctx, v):
     # the capacity a hash table reports depends on how its hasher spread the keys (tombstones): behaviour that depends on
     # capacity() depends on the hasher
     D.r_capinvisible(ctx, v)
+    # a stored key that crate code rewrites in place stays filed under the hash of its OLD value: whether it is found
+    # afterwards depends on how the hasher spreads the two values (an all-colliding hasher hides it)
+    D.r_keymut(ctx, v)
 
 
 TRUST_RUSTC = "rustc type checking, trait resolution and MIR construction (the analysis reads what the compiler compiles)"
@@ -462,7 +466,8 @@ PROPS = {
             "R-NOHASH: no call site in any crate body resolves to a method of Hash/Hasher/BuildHasher, to IndexMap::hasher or to a raw-hash API; "
             "values of the hasher type flow only into constructors; no comparison bound on the hasher parameter. By parametricity the crate can "
             "then depend on the hasher only through the insertion-ordered map; capacity-invisibility (the capacity a hash table reports "
-            "depends on how its hasher spread the keys).",
+            "depends on how its hasher spread the keys); R-KEYMUT (crate code never rewrites a stored key in place: it would stay filed under "
+            "the hash of its old value, so finding it again would depend on the hasher).",
             "trusted": [TRUST_RUSTC, "indexmap is hasher-independent as an insertion-ordered map given consistent Hash/Eq"], "assumptions": []},
 }
 
